@@ -1,4 +1,5 @@
 CONSTANTS
+  CommitOrder = "publish_first"
   NanoMax = 3
   Fine = TRUE
 INIT Init
